@@ -456,9 +456,11 @@ def run_json(c):
                 obs['load'] = load_snapshot(load_table(path))
             except Exception as e:  # noqa
                 obs['load'] = ['err', exc_code(e)]
-        STATS['json-accepted-mutant' if c['muts'] else 'json-library-written'] = \
-            STATS.get('json-accepted-mutant' if c['muts'] else 'json-library-written', 0) + 1
-    return obs, doc
+    tags = []
+    if obs['valid'] is True and c['muts']:
+        tags.append('json-accepted-mutant:' + ('loads' if isinstance(obs['load'], dict) else
+                                               'not-compared' if isinstance(obs['load'], str) else 'does-not-load'))
+    return obs, doc, tags
 
 
 def h5_tree(path):
@@ -526,6 +528,7 @@ def run_h5(c):
         obs['valid'] = ['exc', exc_code(e)]
         obs['report'] = []
     obs['cli'] = cli_verdict(path)
+    tags = []
     if obs['valid'] is True:
         key = 'h5-accepted-mutant' if c['muts'] else 'h5-library-written'
         try:
@@ -533,9 +536,9 @@ def run_h5(c):
             key += ':loads'
         except Exception:  # noqa
             key += ':does-not-load'
-        STATS[key] = STATS.get(key, 0) + 1
+        tags.append(key)
     facts = h5_facts(path)
-    return obs, (tree, facts)
+    return obs, (tree, facts), tags
 
 
 def materialise(c):
@@ -591,21 +594,14 @@ def dec_json(t):
 
 
 def encode(c):
-    obs, extra = materialise(c)
+    obs, extra, _ = materialise(c)
     if c['kind'] == 'json':
         return [0, enc_json(extra)]
     return [1, extra[0]]
 
 
-def dec_verdict(res):
-    """model (valid/report) -> the three observables"""
-    if res[0] == -1:
-        return ['exc', res[1]], [], 'crash'
-    return None
-
-
 def decode(tree, c):
-    obs, extra = materialise(c)
+    obs, extra, _ = materialise(c)
     if c['kind'] == 'json':
         rep, valid, load = tree
         if rep[0] == -1:
@@ -756,7 +752,7 @@ def h5_facts(path):
 
 def oracle(c, obs):
     fails = []
-    _, extra = materialise(c)
+    _, extra, _ = materialise(c)
     valid = obs['valid'] is True
     api_cli = obs['cli'] if isinstance(obs['cli'], list) else [obs['cli']]
     want_cli = 'valid' if valid else ('crash' if isinstance(obs['valid'], list) else 'invalid')
@@ -873,12 +869,8 @@ def classify(c):
     if obs:
         v = obs[0]['valid']
         tags.append('%s-verdict:%s' % (c['kind'], 'valid' if v is True else 'invalid' if v is False else 'exception'))
-    if c is LAST.get('c'):
-        tags += ['%s=%d' % kv for kv in sorted(STATS.items())]
+        tags += obs[2]
     return tags
-
-
-LAST = {}
 
 
 def shrink(c):
